@@ -52,22 +52,6 @@ func c06Client(d *vDriver, id uint32, protoLen int) (*uhppote, c06Config) {
 	return u, cfg
 }
 
-func c06IPEq(got []byte, want []byte) bool {
-	// the destination may be given in the 4-byte or the 16-byte (IPv4-mapped) form
-	if len(got) == 4 {
-		return got[0] == want[0] && got[1] == want[1] && got[2] == want[2] && got[3] == want[3]
-	}
-	if len(got) == 16 {
-		for i := 0; i < 10; i++ {
-			if got[i] != 0 {
-				return false
-			}
-		}
-		return got[10] == 0xff && got[11] == 0xff && got[12] == want[0] && got[13] == want[1] && got[14] == want[2] && got[15] == want[3]
-	}
-	return false
-}
-
 func c06Check(d *vDriver, cfg c06Config, what string) {
 	verifObserve("method", d.method)
 	verifObserve("ip", d.ip)
@@ -78,9 +62,9 @@ func c06Check(d *vDriver, cfg c06Config, what string) {
 	if !usable {
 		verifAssert(d.method == "BroadcastTo", what+": a controller without a usable address is reached by broadcast")
 		if cfg.bcastValid {
-			verifAssert(c06IPEq(d.ip, cfg.bip) && d.port == int(cfg.bport), what+": broadcast goes to the configured broadcast address")
+			verifAssert(specIPEq(d.ip, cfg.bip) && d.port == int(cfg.bport), what+": broadcast goes to the configured broadcast address")
 		} else {
-			verifAssert(c06IPEq(d.ip, []byte{255, 255, 255, 255}) && d.port == 60000, what+": broadcast defaults to 255.255.255.255:60000")
+			verifAssert(specIPEq(d.ip, []byte{255, 255, 255, 255}) && d.port == 60000, what+": broadcast defaults to 255.255.255.255:60000")
 		}
 	} else {
 		if cfg.proto == "tcp" {
@@ -88,7 +72,7 @@ func c06Check(d *vDriver, cfg c06Config, what string) {
 		} else {
 			verifAssert(d.method == "SendUDP", what+": a configured controller is reached over connected UDP by default")
 		}
-		verifAssert(c06IPEq(d.ip, cfg.ip) && d.port == int(cfg.port), what+": the request goes to the configured address and port")
+		verifAssert(specIPEq(d.ip, cfg.ip) && d.port == int(cfg.port), what+": the request goes to the configured address and port")
 	}
 	verifAssert(d.zone == "", what+": no IPv6 zone")
 	verifReach("c06." + what)
@@ -132,9 +116,9 @@ func VerifC06_GetDevices() {
 	u.GetDevices()
 	verifAssert(d.calls == 1 && d.method == "Broadcast", "GetDevices: discovery is exactly one broadcast")
 	if cfg.bcastValid {
-		verifAssert(c06IPEq(d.ip, cfg.bip) && d.port == int(cfg.bport), "GetDevices: broadcast goes to the configured broadcast address")
+		verifAssert(specIPEq(d.ip, cfg.bip) && d.port == int(cfg.bport), "GetDevices: broadcast goes to the configured broadcast address")
 	} else {
-		verifAssert(c06IPEq(d.ip, []byte{255, 255, 255, 255}) && d.port == 60000, "GetDevices: broadcast defaults to 255.255.255.255:60000")
+		verifAssert(specIPEq(d.ip, []byte{255, 255, 255, 255}) && d.port == 60000, "GetDevices: broadcast defaults to 255.255.255.255:60000")
 	}
 	verifReach("c06.GetDevices")
 }
